@@ -365,3 +365,28 @@ func (c *Check) IsKnown(key string) bool {
 	}
 	return false
 }
+
+// HistSnapshot returns a copy of the outcome histogram.
+func (c *Check) HistSnapshot() map[string]int64 {
+	c.mu.Lock()
+	defer c.mu.Unlock()
+	m := make(map[string]int64, len(c.hist))
+	for k, v := range c.hist {
+		m[k] = v
+	}
+	return m
+}
+
+// DropHist removes histogram keys with the given prefix (used to keep evidence files small).
+func (c *Check) DropHist(prefix string) {
+	c.mu.Lock()
+	defer c.mu.Unlock()
+	for k := range c.hist {
+		if strings.HasPrefix(k, prefix) {
+			delete(c.hist, k)
+		}
+	}
+}
+
+// DeadlineTime returns the internal deadline (worker processes derive it from the parent's start).
+func (c *Check) DeadlineTime() time.Time { return c.deadline }
